@@ -35,6 +35,6 @@ def rms_contrast(image):
         float: Contrast value
     """
 
-    image /= image.max()
+    image = image / image.max()
 
     return float(image.std())
